@@ -11,7 +11,8 @@ namespace PyIpmi.Session.Shape
 no session object while the first three messages go out (`self._session = None` … `self._session = session`
 only after the challenge), the order ping → Get Channel Authentication Capabilities → Get Session Challenge →
 Activate Session → Set Session Privilege Level, the authentication type chosen from the capabilities BEFORE
-the challenge is requested, the TEMPORARY id stored before activation and the GRANTED id, the initial inbound
+the challenge is requested and NotSupportedError raised right there when there is none (`Cfg.noAuthRaises`: the
+BMC offers no type, nothing is asked for), the TEMPORARY id stored before activation and the GRANTED id, the initial inbound
 sequence number and `activated = True` stored after it and before Set Session Privilege Level, keep-alive
 installed last with `_get_device_id`. -/
 def establishSession : List String :=
@@ -21,6 +22,9 @@ def establishSession : List String :=
    "call:ping",
    "call:_get_channel_auth_cap",
    "set:session.auth_type=caps.get_max_auth_type()",
+   "if:session.auth_type is None",
+   "raise:NotSupportedError",
+   "end",
    "call:_get_session_challenge",
    "set:session_challenge=rsp.challenge_string",
    "set:session.sid=rsp.temporary_session_id",
@@ -34,13 +38,14 @@ def establishSession : List String :=
    "set:self._stop_keep_alive=call_repeatedly(self.keep_alive_interval,self._get_device_id)",
    "end"]
 
-/-- `Rmcp.close_session`: stop the keep-alive, nothing is sent when not activated, Close Session names
+/-- `Rmcp.close_session`: stop the keep-alive, nothing is sent (and nothing is dereferenced) when there is no
+session object or it is not activated (`Cfg.closeGuard`, tested in this order), Close Session names
 `self._session.sid`, `activated = False` only after the completion code was checked. -/
 def closeSession : List String :=
   ["if:self._stop_keep_alive",
    "call:_stop_keep_alive",
    "end",
-   "if:self._session.activated is False",
+   "if:self._session is None or self._session.activated is False",
    "return",
    "end",
    "set:req=create_request_by_name('CloseSession')",
